@@ -15,7 +15,8 @@ open Utv.Obj Utv.Gen
 theorem C12_gen_tables :
     Utv.Conv.DATE_FORMATS = CodecTables.DATE_FORMATS ∧
     Utv.Conv.DATETIME_FORMATS = CodecTables.DATETIME_FORMATS := by
-  refine ⟨?_, ?_⟩ <;> decide
+  gen_obligation "C12_gen_tables: the regenerated code (Utv.Gen) is no longer equal to the hand model here" by
+    refine ⟨?_, ?_⟩ <;> decide
 
 /-! ### `Options.__init__`: no_data_loss ⇒ addition=False unless the caller chose one (`normAddition`) -/
 
@@ -45,9 +46,10 @@ def effective (v : U) : U :=
 theorem C12_gen_options_init (W : World Unit) (self : U) (ndl : Bool) (a : Addition) :
     (Options.Options_init W self (("no_data_loss", .bool ndl) :: kwAddition a) >>= fun r => getattr r "addition").map effective
       = .ok (encAddition (normAddition ndl a)) := by
-  have hd : Tables.optionsDefaults.lookup "addition" = some "None" := by decide
-  cases ndl <;> cases a <;>
-    obj_simp [Options.Options_init, Options.multi, kwAddition, lookupAttr, isinstance, callable, OVal.isUnprovided,
-      OVal.isNone, getattr, effective, hd, Except.map] <;> rfl
+  gen_obligation "C12_gen_options_init: the regenerated code (Utv.Gen) is no longer equal to the hand model here" by
+    have hd : Tables.optionsDefaults.lookup "addition" = some "None" := by decide
+    cases ndl <;> cases a <;>
+      obj_simp [Options.Options_init, Options.multi, kwAddition, lookupAttr, isinstance, callable, OVal.isUnprovided,
+        OVal.isNone, getattr, effective, hd, Except.map] <;> rfl
 
 end Utv.GenEq.C12
